@@ -652,7 +652,11 @@ def install() -> None:
 # --------------------------------------------------------------------------- watchdog
 
 
+ALARM_FIRED = [0]
+
+
 def _alarm(_sig, _frm):
+    ALARM_FIRED[0] += 1
     raise HangDetected("execution did not finish in time")
 
 
@@ -692,6 +696,7 @@ def run_controlled(op, *, prefix=(), is_async=False, batch_order=False, watchdog
     c = Controller(prefix, batch_order=batch_order, early=early)
     set_controller(c)
     res = ExecResult()
+    fired0 = ALARM_FIRED[0]
     arm_watchdog(watchdog)
     try:
         c.counting = True
@@ -745,6 +750,12 @@ def run_controlled(op, *, prefix=(), is_async=False, batch_order=False, watchdog
                     c._settle()
         except HangDetected as e:
             res.outcome, res.exc = "hang", e
+        except RuntimeError as e:
+            # the alarm's exception can land inside threading.Condition.wait and surface as a lock-state RuntimeError
+            if ALARM_FIRED[0] > fired0:
+                res.outcome, res.exc = "hang", e
+            else:
+                raise
     finally:
         disarm_watchdog()
         c.counting = False
